@@ -28,7 +28,11 @@ func (self *BindStm) format(printer *printer, prefix string, idWidth int) {
 }
 
 func (self *BindStms) format(printer *printer, prefix string) {
-	printer.printComments(self.getNode(), prefix)
+	if len(self.List) == 0 {
+		// Otherwise, the first binding has inherited these comments, and
+		// will print them.
+		printer.printComments(self.getNode(), prefix)
+	}
 	idWidth := 0
 	for _, bindstm := range self.List {
 		if len(bindstm.Id) < 30 {
@@ -223,10 +227,13 @@ func (self *CallStm) format(printer *printer, prefix string) {
 		len(self.Modifiers.Bindings.List) > 0 ||
 		self.Modifiers.Local || self.Modifiers.Preflight || self.Modifiers.Volatile) {
 		if self.Modifiers.Bindings == nil {
+			// Do not copy the comments of the call, which were
+			// already printed.
 			self.Modifiers.Bindings = &BindStms{
-				Node: self.Node,
+				Node: NewAstNode(self.Node.Loc),
 			}
 		}
+		modNode := NewAstNode(self.Modifiers.Bindings.Node.Loc)
 		printer.mustWriteString(") using (\n")
 		// Convert unbound-form mods to bound form.
 		// Because we remove elements from the binding table if they're
@@ -245,10 +252,10 @@ func (self *CallStm) format(printer *printer, prefix string) {
 		if self.Modifiers.Local && !foundMods.Local {
 			self.Modifiers.Bindings.List = append(self.Modifiers.Bindings.List,
 				&BindStm{
-					Node: self.Modifiers.Bindings.Node,
+					Node: modNode,
 					Id:   "local",
 					Exp: &BoolExp{
-						valExp: valExp{Node: self.Modifiers.Bindings.Node},
+						valExp: valExp{Node: modNode},
 						Value:  true,
 					},
 				})
@@ -256,10 +263,10 @@ func (self *CallStm) format(printer *printer, prefix string) {
 		if self.Modifiers.Preflight && !foundMods.Preflight {
 			self.Modifiers.Bindings.List = append(self.Modifiers.Bindings.List,
 				&BindStm{
-					Node: self.Modifiers.Bindings.Node,
+					Node: modNode,
 					Id:   "preflight",
 					Exp: &BoolExp{
-						valExp: valExp{Node: self.Modifiers.Bindings.Node},
+						valExp: valExp{Node: modNode},
 						Value:  true,
 					},
 				})
@@ -267,10 +274,10 @@ func (self *CallStm) format(printer *printer, prefix string) {
 		if self.Modifiers.Volatile && !foundMods.Volatile {
 			self.Modifiers.Bindings.List = append(self.Modifiers.Bindings.List,
 				&BindStm{
-					Node: self.Modifiers.Bindings.Node,
+					Node: modNode,
 					Id:   "volatile",
 					Exp: &BoolExp{
-						valExp: valExp{Node: self.Modifiers.Bindings.Node},
+						valExp: valExp{Node: modNode},
 						Value:  true,
 					},
 				})
@@ -461,7 +468,10 @@ func formatGB(buf *strings.Builder, gb float32) {
 }
 
 func (self *RetainParams) format(printer *printer) {
-	printer.printComments(&self.Node, INDENT)
+	if len(self.Params) == 0 {
+		// Otherwise, the first parameter has inherited these comments.
+		printer.printComments(&self.Node, INDENT)
+	}
 	printer.mustWriteString(") retain (\n")
 	for _, param := range self.Params {
 		printer.printComments(&param.Node, INDENT)
